@@ -1661,7 +1661,7 @@ string StringReader::pread(size_t offset, size_t size) const {
   if (offset >= this->length) {
     return string();
   }
-  if (offset + size > this->length) {
+  if (size > this->length - offset) {
     return string(reinterpret_cast<const char*>(this->data + offset), this->length - offset);
   }
   return string(reinterpret_cast<const char*>(this->data + offset), size);
@@ -1680,7 +1680,7 @@ size_t StringReader::pread(size_t offset, void* data, size_t size) const {
   }
 
   size_t ret;
-  if (offset + size > this->length) {
+  if (size > this->length - offset) {
     memcpy(data, this->data + offset, this->length - offset);
     ret = this->length - offset;
   } else {
